@@ -13,6 +13,7 @@
 //	         over a number alphabet, every byte / ASCII byte pair in many contexts, random 58..70-byte identifiers
 //	         built from UTF-8 fragments (63-byte truncation), random sequences of lexically interesting chunks
 //	C-hand   hand-written edge cases
+//	C-deep   deeply nested expressions around the parser-stack limit (PostgreSQL: 10000 entries; model: 9000)
 package main
 
 import (
@@ -872,6 +873,55 @@ func (g *gen) lexFamilies(nRandom int) {
 }
 
 // ---------------------------------------------------------------------------------------------------------------
+// deep nesting (C-deep): PostgreSQL's parser stack (bison, YYMAXDEPTH = 10000) overflows on deeply nested
+// expressions ("memory exhausted"); the model computes the stack need exactly and rejects from 9000 entries on.
+
+func deepCases() []string {
+	rep := strings.Repeat
+	fams := []func(n int) string{
+		func(n int) string { return rep("(", n) + "1" + rep(")", n) },
+		func(n int) string { return rep("(", n) + "?" + rep(")", n) },
+		func(n int) string { return rep("(", n) + "-1" + rep(")", n) },
+		func(n int) string { return rep("(", n) + `"a"` + rep(")", n) },
+		func(n int) string { return rep("NOT ", n) + "1" },
+		func(n int) string { return rep("NOT ", n) + "$1" },
+		func(n int) string { return rep("NOT ", n) + "-1.5" },
+		func(n int) string { return rep("NOT(", n) + "'a'" + rep(")", n) },
+		func(n int) string { return rep("1 = (1 AND ", n) + "1" + rep(")", n) },
+		func(n int) string { return "1" + rep(" OR (1 AND 1", n) + rep(")", n) },
+		func(n int) string { return rep(`("a" = 1) AND (`, n) + `"a" = 1` + rep(")", n) },
+		func(n int) string { return rep(`("a" = 1) OR (NOT(`, n) + `"a" = 1` + rep("))", n) },
+		func(n int) string { return rep("1 IN (2, ", n) + "3" + rep(")", n) },
+		func(n int) string { return rep("1 IN (", n) + "3" + rep(")", n) },
+		func(n int) string { return rep("(", n) + "1 IN (2, 3)" + rep(")", n) },
+		func(n int) string { return rep("(", n) + "1 IN (2)" + rep(")", n) },
+		func(n int) string { return rep("1 BETWEEN 0 AND (", n) + "1" + rep(")", n) },
+		func(n int) string { return rep("1 BETWEEN (", n) + "0" + rep(") AND 2", n) },
+		func(n int) string { return rep("(", n) + "1 BETWEEN 0 AND 2" + rep(")", n) },
+		func(n int) string { return rep("(", n) + "1 BETWEEN ? AND 2" + rep(")", n) },
+		func(n int) string { return rep("1 SIMILAR TO (", n) + "1" + rep(")", n) },
+		func(n int) string { return rep("(", n) + "1 SIMILAR TO ?" + rep(")", n) },
+		func(n int) string { return rep("1 ~ (", n) + "1" + rep(")", n) },
+		func(n int) string { return rep("(", n) + "1 ~ -1" + rep(")", n) },
+		func(n int) string { return rep("(", n) + "1 >= ?" + rep(")", n) },
+		func(n int) string { return rep("(", n) + "1 AND 2 AND 3 OR 4 OR NOT 5 = 6" + rep(")", n) },
+		func(n int) string { return rep("1 OR 2 AND NOT 3 = 4 BETWEEN 5 AND 6 ~ (", n) + "?" + rep(")", n) },
+		func(n int) string { return "1" + rep(" AND 1", n) },
+		func(n int) string { return `"a" IN (1` + rep(", 1", n) + ")" },
+	}
+	// around the model's bound (9000) and PostgreSQL's (10000) for stack needs of 1, 2, 3, 4, 5, 6, 15 entries per level
+	ns := []int{100, 590, 600, 610, 660, 670, 1490, 1500, 1510, 1660, 1670, 1790, 1800, 1810, 1990, 2000, 2240, 2250, 2260, 2490, 2500,
+		2990, 3000, 3010, 3320, 3330, 3340, 4490, 4500, 4510, 4990, 5000, 8970, 8980, 8990, 9000, 9970, 9980, 9990, 10000, 11000}
+	var xs []string
+	for _, f := range fams {
+		for _, n := range ns {
+			xs = append(xs, f(n))
+		}
+	}
+	return xs
+}
+
+// ---------------------------------------------------------------------------------------------------------------
 // hand-written edge cases
 
 func handWritten() []string {
@@ -937,16 +987,18 @@ func handWritten() []string {
 // ---------------------------------------------------------------------------------------------------------------
 
 type genConfig struct {
-	seed                                int64
+	seed                                     int64
+	deep                                     bool
 	nLucene, nTree, nMut, nExpr, nSoup, nLex int
 }
 
 func defaultGenConfig() genConfig {
-	return genConfig{seed: 1, nLucene: 90000, nTree: 40000, nMut: 90000, nExpr: 40000, nSoup: 15000, nLex: 40000}
+	return genConfig{seed: 1, deep: true, nLucene: 90000, nTree: 40000, nMut: 90000, nExpr: 40000, nSoup: 15000, nLex: 40000}
 }
 
 func (c *genConfig) flags(fs *flag.FlagSet) {
 	fs.Int64Var(&c.seed, "seed", c.seed, "random seed")
+	fs.BoolVar(&c.deep, "deep", c.deep, "include the deep-nesting family C-deep (about 1200 texts, 20 MB)")
 	fs.IntVar(&c.nLucene, "lucene", c.nLucene, "number of distinct ToPostgres/ToParameterizedPostgres outputs (A-pg + A-param)")
 	fs.IntVar(&c.nTree, "tree", c.nTree, "number of distinct outputs of directly built trees (A-tree)")
 	fs.IntVar(&c.nMut, "mut", c.nMut, "number of distinct hostile mutations (B-mut)")
@@ -967,6 +1019,11 @@ func generate(c genConfig) []item {
 	g.soup(c.nSoup)
 	if c.nLex >= 0 {
 		g.lexFamilies(c.nLex)
+	}
+	if c.deep {
+		for _, s := range deepCases() {
+			g.add("C-deep", s)
+		}
 	}
 	return g.out
 }
